@@ -4,6 +4,10 @@ import FP.Model.Enc.KCover
 import FP.Model.Enc.MGS
 import FP.Model.Enc.MSC
 import FP.Model.Enc.MEF
+import FP.Model.Enc.KFDC
+import FP.Model.Enc.KCoverC
+import FP.Model.Enc.KLAEC
+import FP.Model.Enc.KMPEC
 /-!
 # FP.Model.Enc.Handlers — the `lp.*` handlers of the encoder modules, for `Driver.lean`
 -/
@@ -11,6 +15,7 @@ namespace FP
 open Lean
 
 def encHandlersAll : List (String → Json → Option (Except String Json)) :=
-  [handleKLAE, handleKMPE, handleKCover, handleMGS, handleMSC, handleMEF]
+  [handleKLAE, handleKMPE, handleKCover, handleMGS, handleMSC, handleMEF,
+   handleKFDC, handleKCoverC, handleKLAEC, handleKMPEC]
 
 end FP
